@@ -349,8 +349,8 @@ def dynamic_monitor(ck, eng, live, d):
     pkg = os.path.join(vlib.REPO, 'src', 'vtlengine') + os.sep
     mon = Monitor(eng, pkg)
     mon.install(['SemanticError', 'RunTimeError', 'DataLoadError', 'InputValidationException'])
-    n_gen = 250 if ck.quick() else 2500
-    n_corpus = 120 if ck.quick() else 1500
+    n_gen = 250 if ck.quick() else 1200
+    n_corpus = 120 if ck.quick() else 600
     hist = {}
     try:
         targeted = [('DS_r <- inner_join(DS_1 as Me_1);', eng.structures(eng.structure('DS_1', [eng.comp('Id_1', 'Integer', 'Identifier'), eng.comp('Me_1', 'Number', 'Measure')])), 'targeted')]
@@ -420,4 +420,5 @@ def replay(ck):
     print('nothing to replay in', ck.replay_path); sys.exit(2)
 
 
-vlib.run_check(PID, main)
+if __name__ == "__main__":
+    vlib.run_check(PID, main)
